@@ -13,13 +13,15 @@ INPLACE = ["ewd", "ewd_opt", "ewd_vis", "is_winnable", "q_reduction", "is_q_redu
 def gen(rng, tier):
     out = []
     for _ in range(160 if tier == "quick" else 3000):
-        G, fam = common.random_connected_graph(rng, 2, 5); n = G["n"]
+        large = rng.random() < 0.15       # 9..10 vertices: size thresholds inside the library ("only for big graphs ...") are crossed; cheap calls only
+        G, fam = common.random_connected_graph(rng, 9, 10) if large else common.random_connected_graph(rng, 2, 5); n = G["n"]
         D = common.random_divisor(rng, G); small = common.genus(G) <= 3 and abs(sum(D)) <= 5 and max(abs(x) for x in D) <= 6
-        calls = []; session = rng.random() < 0.35       # configuration session: one CFConfig object, tests interleaved with moves, chips >= 0
+        calls = []; session = rng.random() < 0.35 and not large       # configuration session: one CFConfig object, tests interleaved with moves, chips >= 0
         if session: D = [rng.randint(0, 3) for _ in range(n)]
         for _ in range(rng.randint(6, 12) if session else rng.randint(3, 10)):
             k = rng.choice(PCFG) if session else rng.choice(PURE + INPLACE + MOVES + MOVES)
             if k in ("rank", "rank_opt") and not small: k = "is_winnable"
+            if large and k in ("rank", "rank_opt", "superstable", "pcfg_superstable", "gon_game", "gon_strategy"): k = rng.choice(["greedy", "is_winnable", "lineq", "ewd_opt", "q_reduction", "legal"])
             calls.append([k, rng.randrange(n), [rng.randint(-2, 2) for _ in range(n)]])
         if rng.random() < 0.3: D[rng.randrange(n)] -= sum(D)      # degree 0: reaches the EWD path inside linear_equivalence(D, 0)
         out.append({"G": G, "D": D, "E": common.random_divisor(rng, G), "calls": calls, "q0": rng.randrange(n), "s": rng.randrange(1 << 30)})
